@@ -799,8 +799,8 @@ fn explore_guarded(ctx: &mut Ctx, n: usize, pool_max: usize, big: bool) {
 }
 
 pub fn def(tier: Tier) -> CheckDef {
-    let (n, pool) = tier.pick((6usize, 2usize), (8usize, 3usize));
-    let (ng, poolg) = tier.pick((6usize, 2usize), (8usize, 2usize));
+    let (n, pool) = tier.pick((8usize, 2usize), (8usize, 3usize));
+    let (ng, poolg) = (8usize, 2usize); // cheap: thorough bound in both tiers
     def_sized(n, pool, ng, poolg)
 }
 
